@@ -249,3 +249,55 @@ Proof.
       destruct (repr_float_total s m e V) as [t R]. rewrite R. eexists. reflexivity. }
   destruct T as [t T]. exists t. split; [exact T|]. apply num_text_full_roundtrip; assumption.
 Qed.
+
+(* ------------------------------------------------------------------ the contract of Section CPython (Proofs/C13.v), for the model's repr *)
+Theorem repr_float_contract s m e : valid_binary prec emax (S754_finite s m e) = true ->
+  exists t, repr_float (S754_finite s m e) = ARes t /\ repr_ok t = true /\
+            float_with dec_to_sf t = Some (S754_finite s m e) /\
+            value_parse_number (value_string_float t) = Some (S754_finite s m e).
+Proof.
+  intros V. destruct (repr_float_total s m e V) as [t R]. exists t. split; [exact R|]. split; [exact (repr_float_repr_ok _ _ R)|].
+  split; [rewrite <- py_float_factors; exact (repr_float_roundtrip _ _ R)|].
+  unfold value_parse_number, value_string_float. rewrite (repr_float_cleanup_roundtrip _ _ R). reflexivity.
+Qed.
+
+Theorem repr_float_parse_number f t : repr_float f = ARes t -> value_parse_number (value_string_float t) = Some f.
+Proof.
+  intros R. destruct (repr_float_finite f t R) as (s & m & e & ->).
+  unfold value_parse_number, value_string_float. rewrite (repr_float_cleanup_roundtrip _ _ R). reflexivity.
+Qed.
+
+Theorem repr_float_literal f t : repr_float f = ARes t -> is_neg_text t = false ->
+  let text := value_string_float t in lit_match text = Some (O, length text) /\ py_float text = Some f.
+Proof.
+  intros R N text. split; [apply cleanup_is_literal; [exact (repr_float_in_grammar f t R)|exact N]|].
+  exact (repr_float_cleanup_roundtrip _ _ R).
+Qed.
+
+Theorem num_text_full_total_parse f : valid_binary prec emax f = true -> NumText.sf_is_finite f = true ->
+  exists t, num_text_full (NFlt f) = ARes t /\ value_parse_number t = Some f.
+Proof.
+  intros V F. destruct (num_text_full_total f V) as (t & T & _). exists t. split; [exact T|].
+  apply num_text_full_parse_number; assumption.
+Qed.
+
+(* non-vacuity: 0.1, 1e22, 5e-324, the largest double, 123456789.123, -2.5e-07, 1e16, 0.0001, 123456.0, the smallest normal *)
+Definition fl (s : bool) (m : positive) (e : Z) : flt := S754_finite s m e.
+Definition repr_samples_model : list (flt * str * str) :=
+  [ (fl false 7205759403792794 (-56), U "0.1", U "0.1");
+    (fl false 4768371582031250 21, U "1e+22", U "1e+22");
+    (fl false 1 (-1074), U "5e-324", U "5e-324");
+    (fl false 9007199254740991 971, U "1.7976931348623157e+308", U "1.7976931348623157e+308");
+    (fl false 8285044871132086 (-26), U "123456789.123", U "123456789.123");
+    (fl true 4722366482869645 (-74), U "-2.5e-07", U "-2.5e-07");
+    (fl false 5000000000000000 1, U "1e+16", U "1e+16");
+    (fl false 7378697629483821 (-66), U "0.0001", U "0.0001");
+    (fl false 8483831719919616 (-36), U "123456.0", U "123456");
+    (fl false 4503599627370496 (-1074), U "2.2250738585072014e-308", U "2.2250738585072014e-308") ].
+Definition ares_is (a : ares str) (s : str) : bool := match a with ARes t => str_eqb t s | _ => false end.
+Definition sample_ok (x : flt * str * str) : bool :=
+  let '(f, r, t) := x in
+  valid_binary prec emax f && ares_is (repr_float f) r && ares_is (num_text_full (NFlt f)) t &&
+  match py_float r, value_parse_number t with Some g, Some h => sf_eqb g f && sf_eqb h f | _, _ => false end.
+Example repr_samples_model_ok : forallb sample_ok repr_samples_model = true.
+Proof. vm_compute. reflexivity. Qed.
